@@ -153,14 +153,24 @@ class Ctx:
         return fs[0]
 
     def run(self, fn, loop_bound=3):
+        """Symbolic paths of fn. The default unrolling bound is 3 in the quick tier and 5 in thorough (Ctx.loop_bound);
+        a function whose path count exceeds the step bound is retried with smaller bounds (recorded in the evidence)."""
+        if loop_bound == 3:
+            loop_bound = getattr(self, 'loop_bound', 3)
         k = (id(fn), loop_bound)
         if k not in self._runs:
-            try:
-                self._runs[k] = M.Exec(fn, loop_bound=loop_bound, stats=self.stats).run()
-            except M.Unsupported as e:
-                if 'step bound' not in str(e) or loop_bound <= 1:
-                    raise
-                self._runs[k] = M.Exec(fn, loop_bound=1, stats=self.stats).run()     # too many paths: unroll once only
+            tried = loop_bound
+            while True:
+                try:
+                    self._runs[k] = M.Exec(fn, loop_bound=tried, stats=self.stats).run()
+                    break
+                except M.Unsupported as e:
+                    if 'step bound' not in str(e) or tried <= 1:
+                        raise
+                    tried = 3 if tried > 3 else 1       # too many paths: unroll less
+            if tried != loop_bound:
+                self.reduced_unrolling = getattr(self, 'reduced_unrolling', {})
+                self.reduced_unrolling[re.sub(r'^.*?<impl at ', '<impl at ', fn.name)[-90:]] = tried
             self.functions.append(fn.name)
         return self._runs[k]
 
@@ -468,6 +478,7 @@ def confirm_native(pid, key):
 
 def run_part(pid, part, tier, report, known):
     ctx = Ctx(pid)
+    ctx.loop_bound = 5 if tier == 'thorough' else 3
     t0 = time.time()
     incon = []
     names = part.get('specs')
@@ -516,7 +527,7 @@ def run_part(pid, part, tier, report, known):
                      'z3_validity_queries': len(ctx.prover.queries), 'path_feasibility_queries': ctx.stats['feasibility_queries'],
                      'cvc5_cross_checked': n_x, 'cvc5_disagreements': len(bad), 'cvc5_time_s': round(t_x, 1),
                      'mir_dump_s': round(ctx.dump_s, 1), 'wall_s': round(time.time() - t0, 1),
-                     'loop_unrolling': 3, 'failed': [o['name'] for o in failed][:20],
+                     'loop_unrolling': ctx.loop_bound, 'functions_with_reduced_unrolling': getattr(ctx, 'reduced_unrolling', {}), 'failed': [o['name'] for o in failed][:20],
                      'refactored_functions_judged_on_baseline_body': getattr(ctx, 'equiv_notes', [])}
     return violations, known_hits, incon
 
@@ -2614,6 +2625,110 @@ SPECS['C11'] = SPECS['C11'] + [('build_async', spec_build_async), ('async dispat
 SPECS['C10'] = SPECS['C10'] + [('Dispatcher::max_threads', spec_small_forwards)]
 SPECS['C16'] = SPECS['C16'] + [('ParSeq wrapper', spec_parseq_wrapper)]
 SPECS['C06'] = SPECS['C06'] + [('Accessor for () / PhantomData', spec_empty_accessors)]
+
+def spec_async_accessors(ctx):
+    """C15: every accessor of the async dispatcher first takes the state back (blocking), running() polls without blocking,
+    and the poll answers "here" only when the state has really arrived."""
+    key = 'async-accessors'
+    A_ = 'src/dispatch/async_dispatcher.rs'
+    i_data = fidx(A_, 'AsyncDispatcher', 'data')
+    i_w = fidx(A_, 'Inner', 'world')
+    AD = [f for f in ctx.fns() if 'async_dispatcher.rs' in (f.impl_header or '') and 'AsyncDispatcher<' in (f.impl_header or '') and '{closure' not in f.name]
+    by = {f.short: f for f in AD}
+    want = {'wait_without_tl', 'world', 'world_mut', 'res', 'mut_res', 'running', 'wait', 'setup', 'dispatch'}
+    ctx.ob(key, 'AsyncDispatcher has exactly the public entry points %s' % sorted(want), set(by) == want, str(sorted(by)))
+    data_ref = 'ref(fld(deref(p1),%d))' % i_data
+    for nm in ('wait_without_tl', 'world', 'world_mut', 'mut_res'):
+        if nm not in by:
+            continue
+        o = straight(ctx, key, by[nm], 'AsyncDispatcher::' + nm)
+        if not o:
+            continue
+        cs = sig(o)
+        ok = len(cs) == 1 and re.search(r'Data::<R>::inner$', cs[0].callee) and _flat(cs[0].args[0]) == data_ref
+        if ok and nm != 'wait_without_tl':
+            v = o.value
+            ok = isinstance(v, Ref) and _flat(M.place_term(v.place)) == 'fld(deref(%s),%d)' % (cs[0].result, i_w)
+        ctx.ob(key, 'AsyncDispatcher::%s: blocks until the state is back (Data::inner) and %s; runs nothing' % (nm, 'returns' if nm == 'wait_without_tl' else 'hands out the world of that state'), ok, show(o)[:300])
+    if 'res' in by:
+        o = straight(ctx, key, by['res'], 'AsyncDispatcher::res')
+        if o:
+            cs = sig(o)
+            ctx.ob(key, 'AsyncDispatcher::res is world()', len(cs) == 1 and re.search(r'AsyncDispatcher::<.*>::world$', cs[0].callee) and _flat(cs[0].args[0]) == 'p1' and ctx.valid('res', to_term(o.value) == cs[0].result), show(o)[:200])
+    if 'running' in by:
+        outs = ctx.run(by['running'])
+        ok = len(outs) >= 1 and all(o.kind == 'return' for o in outs)
+        for o in outs:
+            cs = sig(o)
+            nb = [e for e in cs if re.search(r'Data::<R>::inner_noblock$', e.callee)]
+            isn = [e for e in cs if re.search(r'^Option::<.*>::is_none$', e.callee)]
+            if not (len(nb) == 1 and _flat(nb[0].args[0]) == data_ref and not [e for e in cs if re.search(r'Data::<R>::inner$|recv', e.callee)]):
+                ok = False
+            elif isn:
+                # running() == poll.is_none()
+                ok = ok and len(cs) == 2 and 'ref' in _flat(isn[0].args[0]) and ctx.valid('running', to_term(o.value) == isn[0].result)
+            else:
+                # spelt as a match on the poll result
+                d = [(_flat(w), k) for w, k in o.st.decisions]
+                ok = ok and len(cs) == 1 and len(d) == 1 and d[0][0] == 'disc(%s)' % nb[0].result and isinstance(o.value, Cst) and o.value.text == ('true' if d[0][1] == M.VARIANT_IDX['None'] else 'false')
+        ctx.ob(key, 'running(): polls without blocking (inner_noblock, never inner / recv) and answers true exactly when the state is not here', ok, str([show(o)[:200] for o in outs]))
+    # the poll
+    D = r'^src/dispatch/async_dispatcher.rs: impl<R> Data<R>'
+    f = ctx.one(D, 'inner_noblock')
+    outs = ctx.run(f)
+    rets = returns(outs)
+    ok = len(outs) == len(rets) == 3
+    seen = set()
+    why = str([show(o)[:160] for o in outs])
+    for o in rets:
+        cs = sig(o)
+        d = [(_flat(w), k) for w, k in o.st.decisions]
+        if not cs:
+            v = o.value
+            if d == [('disc(deref(p1))', M.VARIANT_IDX.get('Inner', 0))] and isinstance(v, Agg) and v.variant == 'Some' and isinstance(v.fields[0], Ref) and 'Inner' in repr(v.fields[0].place):
+                seen.add('here')
+            continue
+        pats = [r'mpsc::Receiver::<.*>::try_recv$', r'^Result::<.*>::map::<Option<Inner<R>>, fn\(Inner<R>\) -> Option<Inner<R>> \{Option::<Inner<R>>::Some\}>$', r'^Result::<.*>::or_else::<.*\{closure@src/dispatch/async_dispatcher.rs', r'^Result::<.*>::expect$']
+        good = len(cs) >= 4 and all(re.search(p_, e.callee) for p_, e in zip(pats, cs)) and _flat(cs[0].args[0]).startswith('ref(fld(mk_as_Rx_1(deref(p1))') \
+            and cs[1].args[0].eq(cs[0].result) and cs[2].args[0].eq(cs[1].result) and cs[3].args[0].eq(cs[2].result) and not [e for e in cs if re.search(r'::recv$', e.callee)]
+        if not good or len(d) != 2 or d[0][0] != 'disc(deref(p1))' or d[1][0] != 'disc(%s)' % cs[3].result:
+            ok = False
+            why = show(o)[:300]
+            break
+        if d[1][1] == M.VARIANT_IDX['None']:
+            if len(cs) == 4 and isinstance(o.value, Agg) and o.value.variant == 'None':
+                seen.add('not yet')
+            else:
+                ok = False
+        else:
+            stored = final_heap(o, M.f_deref(P(1)), [])
+            rec = cs[4] if len(cs) == 5 else None
+            if rec is not None and re.search(r'Data::<R>::inner_noblock$', rec.callee) and _flat(rec.args[0]) == 'p1' and ctx.valid('poll rec', to_term(o.value) == rec.result) \
+                    and isinstance(stored, Agg) and stored.variant == 'Inner' and term_contains(to_term(stored.fields[0]), cs[3].result):
+                seen.add('arrived')
+            else:
+                ok = False
+                why = 'arrived path: ' + show(o)[:300] + ' stored=%r' % (stored,)
+    ctx.ob(key, 'Data::inner_noblock: state here -> Some; otherwise ONE try_recv: arrived -> stored as Data::Inner, then Some; nothing yet -> None; sender gone -> panic (expect); never blocks', ok and seen == {'here', 'not yet', 'arrived'}, '' if ok and len(seen) == 3 else why + ' seen=%s' % sorted(seen))
+    cl = [g for g in ctx.fns() if g.name.endswith('::inner_noblock::{closure#0}') and 'async_dispatcher' in g.name]
+    if len(cl) == 1:
+        outs = ctx.run(cl[0])
+        res = set()
+        for o in returns(outs):
+            d = [(_flat(w), k) for w, k in o.st.decisions]
+            v = o.value
+            if len(d) == 1 and d[0][0] == 'disc(p2)' and isinstance(v, Agg):
+                if d[0][1] == 0 and v.variant == 'Ok' and isinstance(v.fields[0], Agg) and v.fields[0].variant == 'None':
+                    res.add('empty->Ok(None)')
+                elif d[0][1] == 1 and v.variant == 'Err' and ctx.valid('err', to_term(v.fields[0]) == P(2)):
+                    res.add('disconnected->Err')
+        ctx.ob(key, 'the poll maps TryRecvError::Empty to "nothing yet" and keeps Disconnected an error', len(outs) == 2 and res == {'empty->Ok(None)', 'disconnected->Err'}, str([show(o)[:120] for o in outs]))
+    else:
+        ctx.ob(key, 'the poll maps TryRecvError::Empty to "nothing yet" and keeps Disconnected an error', False, 'closure of inner_noblock not found (%d)' % len(cl))
+
+
+SPECS['C15'] = [('accessors and the poll', spec_async_accessors), ('state hand-over (inner / sender)', spec_async_data), ('dispatch and the spawned job', spec_async_dispatch),
+                ('wait: thread-local systems on the caller, after the state is back', spec_async_wait), ('setup waits too', spec_async_setup), ('build_async', spec_build_async)]
 
 
 # ---- the properties whose E2 part used to be a hand-picked list in props.py: the table above is the single source now
